@@ -124,7 +124,7 @@ func (s *Secret) RealObject() *api.Secret {
 	o := &api.Secret{}
 	o.Namespace, o.Name = s.Namespace, s.Name
 	o.ResourceVersion = ""
-	id := fmt.Sprintf("%s/%s@%d", s.Namespace, s.Name, s.Version)
+	id := s.contentID()
 	o.Data = map[string][]byte{}
 	switch s.Kind {
 	case "tls":
